@@ -95,7 +95,7 @@ def rel_C04(f):
 def rel_C05(f):
     if f[0] == "fn.out":
         return f[3][0] in ("q", "qo")
-    return f[0] in ("fn.queue_identity", "fn.flow_identity", "fn.feed_identity") or f[0] in ALWAYS
+    return f[0] in ("fn.queue_identity", "fn.flow_identity", "fn.feed_identity", "np.flow", "np.flow_ok") or f[0] in ALWAYS
 
 
 def rel_C07(f):
@@ -175,6 +175,35 @@ def derive_perm(case, rng):
         used.add(nm)
         names[i_] = nm
     return dict(case, id=case["id"] + "-perm", build=script, names=names, rel={"kind": "perm", "base_id": case["id"]})
+
+
+def derive_detour(case, rng):
+    """same network reached by a detour: origins, destinations and links first attached ROTATED by one place (where
+    there are two or more), the half-built network used (validated, stepped, compiled), then every element attached
+    where it belongs (add_origin / add_destination / add_link replace what is there)"""
+    net = case["net"]
+    rot = lambda xs: xs[1:] + xs[:1]  # noqa: E731
+    ls, os_, ds = list(net["links"]), list(net["origins"]), list(net["dests"])
+    # links may only swap places with links of the same length (the states keep their shapes)
+    byN = {}
+    for l in ls:
+        byN.setdefault(int(net["links"][l]["N"]), []).append(l)
+    lmap = {}
+    for grp in byN.values():
+        lmap.update(dict(zip(grp, rot(grp))))
+    omap, dmap = dict(zip(os_, rot(os_))), dict(zip(ds, rot(ds)))
+    script = [["link", net["links"][l]["up"], lmap[l], net["links"][l]["down"]] for l in ls]
+    script += [["origin", omap[o], net["origins"][o]["node"]] for o in os_]
+    script += [["dest", dmap[d_], net["dests"][d_]["node"]] for d_ in ds]
+    script.append(["use", rng.choice(["np", "SX", "MX"])])
+    fix = [["link", net["links"][l]["up"], l, net["links"][l]["down"]] for l in ls if lmap[l] != l]
+    fix += [["origin", o, net["origins"][o]["node"]] for o in os_ if omap[o] != o]
+    fix += [["dest", d_, net["dests"][d_]["node"]] for d_ in ds if dmap[d_] != d_]
+    rng.shuffle(fix)
+    if fix and rng.random() < 0.5:
+        cut = rng.randint(1, len(fix))
+        fix = fix[:cut] + [["use", rng.choice(["np", "SX"])]] + fix[cut:]
+    return dict(case, id=case["id"] + "-detour", build=script + fix, rel={"kind": "perm", "base_id": case["id"]})
 
 
 def derive_dupnames(case, rng):
@@ -279,7 +308,7 @@ PLANS = {
                 want={"np": True, "fn": fns((0, 1, 2))},
                 quick=dict(n=3, m=3, variants=1, generic=1, corners=13, rand=40),
                 thorough=dict(n=4, m=4, variants=1, generic=2, corners=13, rand=500)),
-    "C05": dict(rel=rel_C05, traj=True, want=lambda c: {"np": False, "fn": fns((0, 1, 2), more_out=(True,))
+    "C05": dict(rel=rel_C05, traj=True, want=lambda c: {"np": True, "fn": fns((0, 1, 2), more_out=(True,))
                                              + fns((0,), more_out=(True,), syms=("SX",), generic_calls=2,
                                                    params=[{"kind": "T", "el": "*"}, {"kind": "C", "el": "*"},
                                                            {"kind": "rho_crit", "el": "*"}])
@@ -291,7 +320,7 @@ PLANS = {
     "C07": dict(rel=rel_C07, want={"np": True, "np_own": True, "fn": fns((-1, 0, 1, 2, 3)) + fns((2,), more_out=(True,))},
                 quick=dict(n=3, m=3, variants=1, generic=1, corners=13, rand=40),
                 thorough=dict(n=4, m=4, variants=2, generic=1, corners=4, rand=400)),
-    "C10": dict(rel=rel_C10, want={"np": True, "sens": True, "jac": ["SX", "MX"]},
+    "C10": dict(rel=rel_C10, derive=("detour",), want={"np": True, "sens": True, "jac": ["SX", "MX"]},
                 quick=dict(n=3, m=3, variants=2, generic=1, corners=0, rand=40),
                 thorough=dict(n=4, m=4, variants=2, generic=1, corners=2, rand=300)),
     "C04": dict(rel=rel_C04, traj=True, derive=("perm", "names"),
@@ -311,7 +340,7 @@ PLANS = {
     "C13": dict(rel=rel_C13, want={"np": False, "spy": True, "fn": []},
                 quick=dict(n=3, m=3, variants=2, generic=1, corners=1, rand=40),
                 thorough=dict(n=4, m=4, variants=2, generic=1, corners=3, rand=400)),
-    "C14": dict(rel=rel_C14, derive=("perm", "scale", "dupnames"), want={"np": True, "fn": fns((0,)) + fns((1,), syms=("SX",))},
+    "C14": dict(rel=rel_C14, derive=("perm", "scale", "dupnames", "detour"), want={"np": True, "fn": fns((0,)) + fns((1,), syms=("SX",))},
                 quick=dict(n=3, m=3, variants=3, generic=1, corners=0, rand=30, nderive=2),
                 thorough=dict(n=4, m=4, variants=2, generic=1, corners=1, rand=300, nderive=2)),
     "C18": dict(rel=rel_C18, family="neutral", want={"np": True, "twin": True, "fn": fns((0,))},
@@ -366,6 +395,8 @@ def run(pid: str, tier: str, plan=None, extra_cases=None) -> dict:
             for k in range(b.get("nderive", 1)):
                 if "perm" in plan["derive"]:
                     derived.append(dict(derive_perm(c, rng), id=f"{c['id']}-perm{k}"))
+                if "detour" in plan["derive"] and k == 0:
+                    derived.append(dict(derive_detour(c, rng), id=f"{c['id']}-detour"))
                 if "scale" in plan["derive"]:
                     derived.append(dict(derive_scale(c, rng), id=f"{c['id']}-scale{k}"))
                 if "dupnames" in plan["derive"] and k == 0:
